@@ -327,6 +327,9 @@ func (m *Monitor) feed(ev *Event) {
 		n.Inc = ev.Inc
 		n.Live = true
 		n.lastSample = nil
+	case KNodeBounce:
+		// Stop + Restart on the same object: like a restart, indices may go back to the snapshot
+		m.node(ev.Node).lastSample = nil
 	case KNodeCrash, KNodeStop:
 		n := m.node(ev.Node)
 		n.Live = false
@@ -912,7 +915,18 @@ func (m *Monitor) onSnapClose(ev *Event) {
 		if ke, ok := m.K[f.idx]; ok && ke.Term != f.term {
 			m.violate(ev, []string{"C10"}, "snapshot-label-term", f.node, "node %s snapshot label (index %d, term %d) but the committed entry has term %d", f.node, f.idx, f.term, ke.Term)
 		}
-		if want := m.committedCfgAt(f.idx); want != nil && f.cfg != nil && !want.Equal(f.cfg) {
+		want := m.committedCfgAt(f.idx)
+		// the node's own log knows the configuration entries up to the label even before commit evidence
+		// for them has been recorded
+		for i := len(n.ents) - 1; i >= 0; i-- {
+			if e := n.ents[i]; e.Index <= f.idx && e.Type == 2 && e.Cfg != nil {
+				if want == nil || e.Cfg.Index > want.Index {
+					want = e.Cfg
+				}
+				break
+			}
+		}
+		if want != nil && f.cfg != nil && !want.Equal(f.cfg) {
 			m.violate(ev, []string{"C10", "C09"}, "snapshot-configuration", f.node, "node %s snapshot at %d carries configuration index %d, committed configuration at that point has index %d", f.node, f.idx, f.cfg.Index, want.Index)
 		}
 		m.sources = append(m.sources, f)
@@ -1055,7 +1069,9 @@ func (m *Monitor) onApply(ev *Event) {
 func (m *Monitor) onRestore(ev *Event) {
 	in := m.inst(ev)
 	// C11 (3): never restore to a point older than what the instance has applied
-	if in.hasLast && ev.Idx < in.last {
+	// (a restore at start-up or in-process Restart legitimately goes back to the snapshot and replays the log;
+	// only an installation - a restore caused by an InstallSnapshot request - is meant)
+	if in.hasLast && ev.Idx < in.last && ev.Via != 0 {
 		m.violate(ev, []string{"C11"}, "restore-older-than-applied", ev.Node, "state machine of %s restored to snapshot index %d after having applied index %d", ev.Node, ev.Idx, in.last)
 	}
 	m.Counts["restores"]++
